@@ -146,3 +146,21 @@ let () =
         ^ ",\"radix\":" ^ jtext (spell_radix (n_of_int (as_int b)) (as_bool neg) (as_bool upp) (as_bool upd) (nat_of_int (as_int k)) nn)
         ^ ",\"zero\":" ^ jtext (spell_zero (as_bool neg) (nat_of_int (as_int k))) ^ "}"
     | _ -> raise (Bad "numprint"))
+
+(* C10: the static predicates.  (static perf PROG (names of a candidate trap set)) *)
+let () =
+  let b x = if x then "true" else "false" in
+  register "static" (function
+    | L [ _; perf; p; L names ] ->
+        let p = as_prog p in
+        let ms = p.p_macros in
+        let d = List.map as_name names in
+        let inl = inline p in
+        "{\"r\":\"ok\",\"inline\":" ^ (match inl with Ok _ -> "\"ok\"" | Err m -> jstr (string_of_cl m))
+        ^ ",\"scoped\":" ^ (match inl with Ok q -> b (well_scoped (as_name perf) q) | Err _ -> "null")
+        ^ ",\"meaning\":" ^ (match inl with Ok q -> (match cfg_of_prog (as_name perf) q with Ok _ -> "true" | Err _ -> "false") | Err _ -> "false")
+        ^ ",\"unknown\":" ^ b (program_has (unknown_macro ms) p)
+        ^ ",\"few\":" ^ b (program_has (too_few_args ms) p)
+        ^ ",\"self_recursive\":" ^ b (program_has (self_recursive ms) p)
+        ^ ",\"trap\":" ^ b (trap ms d && program_has (fun n _ -> List.exists (fun x -> x = n) d) p) ^ "}"
+    | _ -> raise (Bad "static"))
